@@ -89,8 +89,10 @@ Proof.
   rewrite (scan_loop_cons _ c rest) by reflexivity. cbn [length]. f_equal. lia.
 Qed.
 
+Lemma numtok_numchar : forall t, numtok t = true -> forallb numchar t = true.
+Proof. intros t H. unfold numtok in H. apply andb_true_iff in H. tauto. Qed.
 Lemma wfv_num : forall t, wfv (JNum t) = true -> forallb numchar t = true.
-Proof. intros [|c t] H; [discriminate | exact H]. Qed.
+Proof. intros t H. apply numtok_numchar. exact H. Qed.
 
 
 Lemma hexd_plain : forall n, hexd n <> 34 /\ hexd n <> 92 \/ 10 <= n /\ n = 5.
@@ -121,25 +123,56 @@ Proof.
   - apply qskips_plain; assumption.
 Qed.
 
-Lemma qskips_esc_string_n : forall L n s, (1 <= L)%Z -> (length s <= n)%nat -> qskips L (esc_string s).
+Lemma esc_u_cons : forall copy skip c t, esc_u copy skip (c :: t) =
+    match skip with
+    | S k => esc_u copy k t
+    | O =>
+      if c <? 128 then esc_byte c ++ esc_u 0 0 t
+      else match copy with
+           | S k => c :: esc_u k 0 t
+           | O =>
+             match vprefix c t with
+             | O => ufffd ++ esc_u 0 0 t
+             | S n => if is_lsep c t then lsep_esc t ++ esc_u 0 2 t else c :: esc_u n 0 t
+             end
+           end
+    end.
+Proof. reflexivity. Qed.
+
+Lemma esc_u_chunks_q : forall (Q : N -> Prop) (P : list N -> Prop),
+  (forall c, Q c -> P (esc_byte c)) -> (forall c, 128 <= c -> P [c]) -> P ufffd -> P [92; 117; 50; 48; 50; 56] -> P [92; 117; 50; 48; 50; 57] -> P [] ->
+  (forall a b, P a -> P b -> P (a ++ b)) -> forall s, Forall Q s -> forall copy skip, P (esc_u copy skip s).
 Proof.
-  intros L n. induction n as [|n IH]; intros s HL Hn.
-  - destruct s; [apply qskips_nil | cbn in Hn; lia].
-  - destruct s as [|c t]; [apply qskips_nil|].
-    cbn [length] in Hn.
-    assert (Ht : qskips L (esc_byte c ++ esc_string t)).
-    { apply qskips_app; [apply qskips_esc_byte; assumption | apply IH; [assumption | lia]]. }
-    cbn [esc_string]. destruct t as [|c2 [|c3 t']]; try exact Ht.
-    destruct ((c =? 226) && (c2 =? 128) && ((c3 =? 168) || (c3 =? 169))); [|exact Ht].
-    assert (Hd : (if c3 =? 168 then 56 else 57) <> 34 /\ (if c3 =? 168 then 56 else 57) <> 92).
-    { destruct (c3 =? 168); split; discriminate. }
-    change (92 :: 117 :: 50 :: 48 :: 50 :: (if c3 =? 168 then 56 else 57) :: esc_string t')
-      with ([92; 117] ++ [50] ++ [48] ++ [50] ++ [if c3 =? 168 then 56 else 57] ++ esc_string t').
-    repeat apply qskips_app; try apply qskips_esc; try (apply qskips_plain; try assumption; try discriminate; apply Hd).
-    apply IH; [assumption | cbn [length] in Hn; lia].
+  intros Q P Hb Hr Hf H8 H9 Hn Happ. induction s as [|c t IH]; intros HQ copy skip; [exact Hn|].
+  inversion HQ as [|c' t' Hc Ht]; subst. specialize (IH Ht).
+  rewrite esc_u_cons. destruct skip as [|k]; [|apply IH].
+  destruct (c <? 128) eqn:E; [apply Happ; [apply Hb; exact Hc | apply IH]|]. apply N.ltb_ge in E.
+  destruct copy as [|k]; [|change (c :: esc_u k 0 t) with ([c] ++ esc_u k 0 t); apply Happ; [apply Hr; exact E | apply IH]].
+  destruct (vprefix c t) as [|n]; [apply Happ; [exact Hf | apply IH]|].
+  destruct (is_lsep c t) eqn:El.
+  - apply Happ; [|apply IH]. unfold is_lsep in El. destruct t as [|c2 [|c3 t'']]; try discriminate El. cbn [lsep_esc].
+    destruct (c3 =? 168); assumption.
+  - change (c :: esc_u n 0 t) with ([c] ++ esc_u n 0 t). apply Happ; [apply Hr; exact E | apply IH].
 Qed.
+
+Lemma qskips_esc_u : forall L s copy skip, (1 <= L)%Z -> qskips L (esc_u copy skip s).
+Proof.
+  intros L s copy skip HL. apply (esc_u_chunks_q (fun _ => True) (qskips L)).
+  - intros c _. apply qskips_esc_byte. exact HL.
+  - intros c Hc. apply qskips_plain; [exact HL | lia | lia].
+  - change ufffd with ([92; 117] ++ [102] ++ [102] ++ [102] ++ [100]).
+    repeat apply qskips_app; try apply qskips_esc; apply qskips_plain; try exact HL; discriminate.
+  - change [92; 117; 50; 48; 50; 56] with ([92; 117] ++ [50] ++ [48] ++ [50] ++ [56]).
+    repeat apply qskips_app; try apply qskips_esc; apply qskips_plain; try exact HL; discriminate.
+  - change [92; 117; 50; 48; 50; 57] with ([92; 117] ++ [50] ++ [48] ++ [50] ++ [57]).
+    repeat apply qskips_app; try apply qskips_esc; apply qskips_plain; try exact HL; discriminate.
+  - apply qskips_nil.
+  - intros a b. apply qskips_app.
+  - apply Forall_forall. intros; exact I.
+Qed.
+
 Lemma qskips_esc_string : forall L s, (1 <= L)%Z -> qskips L (esc_string s).
-Proof. intros L s HL. apply (qskips_esc_string_n L (length s)); [assumption | lia]. Qed.
+Proof. intros L s HL. apply qskips_esc_u. exact HL. Qed.
 
 Lemma skips_ser_str : forall L s, (1 <= L)%Z -> skips L (ser_str s).
 Proof.
@@ -384,20 +417,19 @@ Proof.
   - cbn [forallb]. unfold noeol, is_eol. rewrite E2, E3. reflexivity.
 Qed.
 
-Lemma esc_string_noeol_n : forall n s, (length s <= n)%nat -> forallb noeol (esc_string s) = true.
+Lemma noeol_esc_u : forall s copy skip, forallb noeol (esc_u copy skip s) = true.
 Proof.
-  induction n as [|n IH]; intros s Hn.
-  - destruct s; [reflexivity | cbn in Hn; lia].
-  - destruct s as [|c t]; [reflexivity|]. cbn [length] in Hn.
-    assert (Ht : forallb noeol (esc_byte c ++ esc_string t) = true).
-    { rewrite forallb_app, esc_byte_noeol, IH by lia. reflexivity. }
-    cbn [esc_string]. destruct t as [|c2 [|c3 t']]; try exact Ht.
-    destruct ((c =? 226) && (c2 =? 128) && ((c3 =? 168) || (c3 =? 169))); [|exact Ht].
-    cbn [forallb]. rewrite IH by (cbn [length] in Hn; lia). destruct (c3 =? 168); reflexivity.
+  intros s copy skip. apply (esc_u_chunks_q (fun _ => True) (fun l => forallb noeol l = true)); try reflexivity.
+  - intros c _. apply esc_byte_noeol.
+  - intros c Hc. cbn [forallb]. unfold noeol, is_eol.
+    replace (c =? 13) with false by (symmetry; apply N.eqb_neq; lia). replace (c =? 10) with false by (symmetry; apply N.eqb_neq; lia). reflexivity.
+  - intros a b Ha Hb. rewrite forallb_app, Ha, Hb. reflexivity.
+  - apply Forall_forall. intros; exact I.
 Qed.
+
 Lemma ser_str_noeol : forall s, forallb noeol (ser_str s) = true.
 Proof.
-  intros s. unfold ser_str. cbn [forallb]. rewrite forallb_app, (esc_string_noeol_n (length s)) by lia. reflexivity.
+  intros s. unfold ser_str, esc_string. cbn [forallb]. rewrite forallb_app, noeol_esc_u. reflexivity.
 Qed.
 
 Lemma numchar_noeol : forall c, numchar c = true -> noeol c = true.
@@ -1038,18 +1070,13 @@ Proof.
     apply N.eqb_neq in H1, H2. rewrite H1, H2. reflexivity.
   - cbn [forallb]. unfold ne34. rewrite Hc. reflexivity.
 Qed.
-Lemma esc_string_ne34_n : forall n s, (length s <= n)%nat -> forallb ne34 s = true -> forallb ne34 (esc_string s) = true.
+Lemma ne34_esc_u : forall s copy skip, forallb ne34 s = true -> forallb ne34 (esc_u copy skip s) = true.
 Proof.
-  induction n as [|n IH]; intros s Hn Hs.
-  - destruct s; [reflexivity | cbn in Hn; lia].
-  - destruct s as [|c t]; [reflexivity|]. cbn [length] in Hn.
-    cbn [forallb] in Hs. apply andb_true_iff in Hs. destruct Hs as [Hc Ht].
-    assert (H1 : forallb ne34 (esc_byte c ++ esc_string t) = true).
-    { rewrite forallb_app, esc_byte_ne34, IH by (assumption || lia). reflexivity. }
-    cbn [esc_string]. destruct t as [|c2 [|c3 t']]; try exact H1.
-    destruct ((c =? 226) && (c2 =? 128) && ((c3 =? 168) || (c3 =? 169))); [|exact H1].
-    cbn [forallb] in Ht. apply andb_true_iff in Ht. destruct Ht as [_ Ht]. apply andb_true_iff in Ht. destruct Ht as [_ Ht].
-    cbn [forallb]. rewrite IH by (cbn [length] in Hn; assumption || lia). destruct (c3 =? 168); reflexivity.
+  intros s copy skip H. apply (esc_u_chunks_q (fun c => ne34 c = true) (fun l => forallb ne34 l = true)); try reflexivity.
+  - intros c Hc. apply esc_byte_ne34. exact Hc.
+  - intros c Hc. cbn [forallb]. unfold ne34. replace (c =? 34) with false by (symmetry; apply N.eqb_neq; lia). reflexivity.
+  - intros a b Ha Hb. rewrite forallb_app, Ha, Hb. reflexivity.
+  - apply Forall_forall. rewrite forallb_forall in H. exact H.
 Qed.
 
 Lemma oskips_ser_str : forall L s, (1 <= L)%Z -> forallb ne34 s = true -> oskips L (ser_str s).
@@ -1061,7 +1088,7 @@ Proof.
   destruct (start >? -1)%Z eqn:E1; [|lia]. cbn [andb negb].
   destruct (start >=? 0)%Z eqn:E2; [|lia]. cbn [andb].
   rewrite <- app_assoc.
-  rewrite (oqskips_list L (esc_string s) HL (esc_string_ne34_n (length s) s (le_n _) Hs)) by assumption. cbn [app].
+  rewrite (oqskips_list L (esc_string s) HL (ne34_esc_u s 0 0 Hs)) by assumption. cbn [app].
   rewrite (oscan_loop_cons _ 34 rest) by reflexivity.
   cbn [andb negb N.eqb Pos.eqb]. repeat (rewrite ?E3, ?E1, ?E2, ?andb_false_r; cbn [andb negb]).
   f_equal. cbn [length]. rewrite app_length. cbn [length]. lia.
@@ -1155,4 +1182,865 @@ Proof.
   destruct ((0 <? 0)%Z || (1 + Z.of_nat n <? 0)%Z) eqn:E.
   { apply orb_true_iff in E. destruct E as [E|E]; [discriminate | apply Z.ltb_lt in E; lia]. }
   f_equal. f_equal. cbn [length]. rewrite app_length. cbn [length]. fold n. lia.
+Qed.
+
+
+(** * Round 2: the JSON parser inverts the marshaller *)
+
+
+Lemma numtok_nonempty : forall t, numtok t = true -> t <> [].
+Proof. intros [|c t] H; [discriminate H | discriminate]. Qed.
+
+Definition nonum (rest : list N) : Prop := match rest with c :: _ => numchar c = false | [] => True end.
+Lemma span_num_app : forall t rest, forallb numchar t = true -> nonum rest -> span_num (t ++ rest) = (t, rest).
+Proof.
+  induction t as [|c t IH]; intros rest Ht Hr.
+  - cbn [app]. destruct rest as [|c r]; [reflexivity|]. cbn [span_num]. cbn [nonum] in Hr. rewrite Hr. reflexivity.
+  - cbn [forallb] in Ht. apply andb_true_iff in Ht. destruct Ht as [Hc Ht]. cbn [app span_num]. rewrite Hc, IH by assumption. reflexivity.
+Qed.
+
+Lemma strip_app : forall p rest, strip p (p ++ rest) = Some rest.
+Proof. induction p as [|x p IH]; intros rest; [reflexivity|]. cbn [app strip]. rewrite N.eqb_refl. apply IH. Qed.
+
+(** one-step equations *)
+Lemma parse_str_raw : forall c r, (c =? 34) = false -> (c =? 92) = false -> (c =? 0) = false ->
+  parse_str (c :: r) = match parse_str r with Some (t, r') => Some (c :: t, r') | None => None end.
+Proof. intros c r H1 H2 H3. cbn [parse_str]. rewrite H1, H2, H3. reflexivity. Qed.
+Lemma parse_str_quote : forall r, parse_str (34 :: r) = Some ([], r).
+Proof. reflexivity. Qed.
+
+Lemma unhex_hexd : forall n, n < 16 -> unhex (hexd n) = Some n.
+Proof.
+  intros n Hn. unfold hexd, unhex. destruct (n <? 10) eqn:E.
+  - apply N.ltb_lt in E. replace ((48 <=? 48 + n) && (48 + n <=? 57)) with true.
+    + f_equal. lia.
+    + symmetry. apply andb_true_iff. split; apply N.leb_le; lia.
+  - apply N.ltb_ge in E. replace ((48 <=? 87 + n) && (87 + n <=? 57)) with false.
+    + replace ((97 <=? 87 + n) && (87 + n <=? 102)) with true.
+      * f_equal. lia.
+      * symmetry. apply andb_true_iff. split; apply N.leb_le; lia.
+    + symmetry. apply andb_false_iff. right. apply N.leb_gt. lia.
+Qed.
+
+Definition cont (c : list N) (r : list N) : option (list N * list N) :=
+  match parse_str r with Some (t, r') => Some (c ++ t, r') | None => None end.
+
+Lemma parse_str_u : forall a b c d r cp bytes, unhex4 a b c d = Some cp -> utf8 cp = Some bytes ->
+  parse_str (92 :: 117 :: a :: b :: c :: d :: r) = cont bytes r.
+Proof. intros a b c d r cp bytes H1 H2. cbn [parse_str N.eqb Pos.eqb]. rewrite H1, H2. reflexivity. Qed.
+
+Lemma parse_esc_byte : forall c tail, parse_str (esc_byte c ++ tail) = cont [c] tail.
+Proof.
+  intros c tail. unfold esc_byte, cont.
+  destruct ((c =? 34) || (c =? 92)) eqn:E1.
+  { apply orb_true_iff in E1. destruct E1 as [E|E]; apply N.eqb_eq in E; subst c; reflexivity. }
+  apply orb_false_iff in E1. destruct E1 as [E1 E2].
+  destruct (c =? 10) eqn:E3. { apply N.eqb_eq in E3. subst c. reflexivity. }
+  destruct (c =? 13) eqn:E4. { apply N.eqb_eq in E4. subst c. reflexivity. }
+  destruct (c =? 9) eqn:E5. { apply N.eqb_eq in E5. subst c. reflexivity. }
+  destruct (c <? 32) eqn:E6.
+  - apply N.ltb_lt in E6. cbn [app].
+    rewrite (parse_str_u 48 48 (hexd (c / 16)) (hexd (c mod 16)) tail c [c]); [reflexivity | |].
+    + unfold unhex4. change (unhex 48) with (Some 0).
+      rewrite !unhex_hexd.
+      * f_equal. pose proof (N.div_mod c 16 ltac:(lia)). lia.
+      * apply N.mod_lt. lia.
+      * apply N.div_lt_upper_bound; lia.
+    + unfold utf8. replace (c <? 128) with true; [reflexivity|]. symmetry. apply N.ltb_lt. lia.
+  - cbn [app]. apply N.ltb_ge in E6. rewrite parse_str_raw; [reflexivity | assumption | assumption | apply N.eqb_neq; lia].
+Qed.
+
+(** the parser reads back what the marshaller wrote — for valid UTF-8 (an invalid byte comes back as U+FFFD) *)
+Lemma parse_str_esc_u_n : forall n s copy rest, (length s <= n)%nat -> utf8_ok_u copy s = true ->
+  parse_str (esc_u copy 0 s ++ 34 :: rest) = Some (s, rest).
+Proof.
+  induction n as [|n IH]; intros s copy rest Hn Hok.
+  - destruct s; [|cbn in Hn; lia]. destruct copy; [reflexivity | discriminate Hok].
+  - destruct s as [|c t]; [destruct copy; [reflexivity | discriminate Hok]|]. cbn [length] in Hn.
+    rewrite esc_u_cons. cbn [utf8_ok_u] in Hok. destruct (c <? 128) eqn:E.
+    + destruct copy; [|discriminate Hok]. rewrite <- app_assoc, parse_esc_byte. unfold cont. rewrite IH by (lia || exact Hok). reflexivity.
+    + apply N.ltb_ge in E.
+      assert (Hraw : forall k, utf8_ok_u k t = true -> parse_str ((c :: esc_u k 0 t) ++ 34 :: rest) = Some (c :: t, rest)).
+      { intros k Hk. cbn [app]. rewrite parse_str_raw by (apply N.eqb_neq; lia). rewrite IH by (lia || exact Hk). reflexivity. }
+      destruct copy as [|k]; [|apply Hraw; exact Hok].
+      destruct (vprefix c t) as [|m] eqn:Ev; [discriminate Hok|].
+      destruct (is_lsep c t) eqn:El; [|apply Hraw; exact Hok].
+      unfold is_lsep in El. destruct t as [|c2 [|c3 t']]; try discriminate El.
+      apply andb_true_iff in El. destruct El as [El E3]. apply andb_true_iff in El. destruct El as [E1 E2].
+      apply N.eqb_eq in E1, E2. subst c c2.
+      assert (Hm : m = 2%nat /\ utf8_ok_u 0 t' = true).
+      { apply orb_true_iff in E3. destruct E3 as [E3|E3]; apply N.eqb_eq in E3; subst c3; cbn in Ev; injection Ev as <-; cbn in Hok; tauto. }
+      destruct Hm as [-> Hok'].
+      assert (Hr : parse_str (esc_u 0 0 t' ++ 34 :: rest) = Some (t', rest)) by (apply IH; [cbn [length] in Hn; lia | exact Hok']).
+      cbn [lsep_esc]. change (esc_u 0 2 (128 :: c3 :: t')) with (esc_u 0 0 t').
+      apply orb_true_iff in E3. destruct E3 as [E3|E3]; apply N.eqb_eq in E3; subst c3; cbn [N.eqb Pos.eqb app].
+      * rewrite (parse_str_u 50 48 50 56 _ 8232 [226; 128; 168]) by reflexivity. unfold cont. rewrite Hr. reflexivity.
+      * rewrite (parse_str_u 50 48 50 57 _ 8233 [226; 128; 169]) by reflexivity. unfold cont. rewrite Hr. reflexivity.
+Qed.
+Lemma parse_str_esc : forall s rest, utf8_ok s = true -> parse_str (esc_string s ++ 34 :: rest) = Some (s, rest).
+Proof. intros s rest H. apply (parse_str_esc_u_n (length s)); [lia | exact H]. Qed.
+
+
+
+Fixpoint size (v : jvalue) : nat :=
+  match v with
+  | JArr l => S (list_sum (map size l))
+  | JObj m => S (list_sum (map (fun kv => size (snd kv)) m))
+  | _ => 1%nat
+  end.
+Lemma size_pos : forall v, (1 <= size v)%nat.
+Proof. destruct v; cbn [size]; lia. Qed.
+
+Definition follow_ok (v : jvalue) (rest : list N) : Prop :=
+  match v with JNum _ => nonum rest | _ => True end.
+
+Lemma skip_ws_nows : forall c r, is_jws c = false -> skip_ws (c :: r) = c :: r.
+Proof. intros c r H. cbn [skip_ws]. rewrite H. reflexivity. Qed.
+
+Lemma jparse_f_S : forall f c r, is_jws c = false -> jparse_f (S f) (c :: r) =
+      if c =? 34 then match parse_str r with Some (t, r') => Some (JStr t, r') | None => None end
+      else if c =? 91 then
+        match skip_ws r with
+        | c2 :: r2 => if c2 =? 93 then Some (JArr [], r2)
+                      else match parse_elems (jparse_f f) f r with Some (l, r') => Some (JArr l, r') | None => None end
+        | [] => None
+        end
+      else if c =? 123 then
+        match skip_ws r with
+        | c2 :: r2 => if c2 =? 125 then Some (JObj [], r2)
+                      else match parse_members (jparse_f f) f r with Some (l, r') => Some (JObj l, r') | None => None end
+        | [] => None
+        end
+      else if numchar c then
+        let (t, r') := span_num (c :: r) in if numtok t then Some (JNum t, r') else None
+      else match strip lit_null (c :: r) with Some r' => Some (JNull, r') | None =>
+           match strip lit_true (c :: r) with Some r' => Some (JBool true, r') | None =>
+           match strip lit_false (c :: r) with Some r' => Some (JBool false, r') | None => None end end end.
+Proof. intros f c r H. cbn [jparse_f]. rewrite skip_ws_nows by exact H. reflexivity. Qed.
+
+(** first byte of a serialised value *)
+Definition headc (c : N) : bool := negb (c =? 93) && negb (c =? 125) && negb (c =? 44).
+Lemma numchar_head : forall c, numchar c = true -> (c =? 34) = false /\ (c =? 91) = false /\ (c =? 123) = false /\ (c =? 93) = false /\ is_jws c = false.
+Proof.
+  intros c H. unfold numchar in H. unfold is_jws.
+  repeat (apply orb_true_iff in H; destruct H as [H|H]);
+    try (apply N.eqb_eq in H; subst; repeat split; reflexivity).
+  apply andb_true_iff in H. destruct H as [H1 H2]. apply N.leb_le in H1, H2.
+  repeat split; try (apply N.eqb_neq; lia). repeat (apply orb_false_iff; split); apply N.eqb_neq; lia.
+Qed.
+Lemma ser_head : forall v, wfv v = true -> exists c t, ser v = c :: t /\ (c =? 93) = false /\ is_jws c = false.
+Proof.
+  intros v H. destruct v as [| [|] | tok | s | l | m]; cbn [ser]; try (eexists; eexists; split; [reflexivity | split; reflexivity]).
+  cbn [wfv] in H. pose proof (numtok_numchar _ H) as Hc. destruct tok as [|c t]; [discriminate H|].
+  cbn [forallb] in Hc. apply andb_true_iff in Hc. destruct Hc as [Hc _].
+  exists c, t. split; [reflexivity|]. destruct (numchar_head c Hc) as (_ & _ & _ & H4 & H5). split; assumption.
+Qed.
+
+Lemma join_cons2 : forall sep (x y : list N) ys, join sep (x :: y :: ys) = x ++ sep :: join sep (y :: ys).
+Proof. reflexivity. Qed.
+Section Lists.
+  Variable pv : list N -> option (jvalue * list N).
+  Lemma parse_elems_ok : forall l n rest, l <> [] -> (length l <= n)%nat ->
+    (forall v, In v l -> forall rest', nonum rest' -> pv (ser v ++ rest') = Some (v, rest')) ->
+    parse_elems pv n (join 44 (map ser l) ++ 93 :: rest) = Some (l, rest).
+  Proof.
+    induction l as [|v l IH]; intros n rest Hne Hn Hpv; [congruence|].
+    destruct n as [|n]; [cbn in Hn; lia|]. cbn [length] in Hn.
+    destruct l as [|v2 l'].
+    - cbn [map join]. cbn [parse_elems]. rewrite Hpv; [| left; reflexivity | reflexivity]. reflexivity.
+    - cbn [map]. rewrite join_cons2. change (ser v2 :: map ser l') with (map ser (v2 :: l')).
+      remember (v2 :: l') as l2.
+      rewrite <- app_assoc. cbn [app parse_elems]. rewrite Hpv; [| left; reflexivity | reflexivity].
+      cbn [skip_ws is_jws orb N.eqb Pos.eqb]. rewrite IH; [reflexivity | subst l2; discriminate | subst l2; cbn [length] in *; lia |].
+      intros v' Hv'. apply Hpv. right. exact Hv'.
+  Qed.
+
+  Definition ser_member (kv : list N * jvalue) : list N := match kv with (k, x) => ser_str k ++ 58 :: ser x end.
+  Lemma parse_members_ok : forall m n rest, m <> [] -> (length m <= n)%nat ->
+    (forall kv, In kv m -> utf8_ok (fst kv) = true) ->
+    (forall kv, In kv m -> forall rest', nonum rest' -> pv (ser (snd kv) ++ rest') = Some (snd kv, rest')) ->
+    parse_members pv n (join 44 (map ser_member m) ++ 125 :: rest) = Some (m, rest).
+  Proof.
+    induction m as [|[k v] m IH]; intros n rest Hne Hn Hku Hpv; [congruence|].
+    destruct n as [|n]; [cbn in Hn; lia|]. cbn [length] in Hn.
+    assert (Hone : forall tail c, nonum (c :: tail) -> is_jws c = false ->
+      parse_members pv (S n) (ser_member (k, v) ++ c :: tail) =
+        if c =? 125 then Some ([(k, v)], tail)
+        else if c =? 44 then match parse_members pv n tail with Some (l, r') => Some ((k, v) :: l, r') | None => None end
+        else None).
+    { intros tail c Hc Hws. unfold ser_member, ser_str. cbn [app parse_members skip_ws is_jws orb N.eqb Pos.eqb].
+      rewrite <- !app_assoc. cbn [app]. rewrite parse_str_esc by (apply (Hku (k, v)); left; reflexivity). cbn [skip_ws is_jws orb N.eqb Pos.eqb].
+      rewrite (Hpv (k, v)); [| left; reflexivity | exact Hc]. cbn [snd]. rewrite skip_ws_nows by exact Hws. reflexivity. }
+    destruct m as [|kv2 m'].
+    - cbn [map join]. rewrite Hone by reflexivity. reflexivity.
+    - cbn [map]. rewrite join_cons2. change (ser_member kv2 :: map ser_member m') with (map ser_member (kv2 :: m')).
+      remember (kv2 :: m') as m2.
+      rewrite <- app_assoc. cbn [app]. rewrite Hone by reflexivity. cbn [N.eqb Pos.eqb].
+      rewrite IH; [reflexivity | subst m2; discriminate | subst m2; cbn [length] in *; lia | |].
+      + intros kv' Hkv'. apply Hku. right. exact Hkv'.
+      + intros kv' Hkv'. apply Hpv. right. exact Hkv'.
+  Qed.
+End Lists.
+
+Lemma list_sum_ge : forall (A : Type) (f : A -> nat) l, (forall x, 1 <= f x)%nat -> (length l <= list_sum (map f l))%nat.
+Proof. intros A f l Hf. induction l as [|x l IH]; [cbn; lia|]. cbn [map list_sum length fold_right]. specialize (Hf x). unfold list_sum in IH. lia. Qed.
+Lemma list_sum_in : forall (A : Type) (f : A -> nat) l x, In x l -> (f x <= list_sum (map f l))%nat.
+Proof. intros A f l x H. induction l as [|y l IH]; [destruct H|]. cbn [map list_sum fold_right]. unfold list_sum in IH. destruct H as [->|H]; [lia | specialize (IH H); lia]. Qed.
+
+Lemma jparse_f_ser : forall v, wfv v = true -> utf8v v = true -> forall fuel rest, (size v <= fuel)%nat -> follow_ok v rest ->
+  jparse_f fuel (ser v ++ rest) = Some (v, rest).
+Proof.
+  induction v using jvalue_ind'; intros Hwf Hu fuel rest Hf Hfo; (destruct fuel as [|f]; [pose proof (size_pos JNull); cbn [size] in Hf; lia|]).
+  - reflexivity.
+  - destruct b; reflexivity.
+  - cbn [wfv] in Hwf. pose proof (numtok_numchar _ Hwf) as Hc. cbn [ser].
+    destruct t as [|c t]; [discriminate Hwf|]. cbn [app].
+    pose proof Hc as Hc'. cbn [forallb] in Hc'. apply andb_true_iff in Hc'. destruct Hc' as [Hc1 _].
+    destruct (numchar_head c Hc1) as (E1 & E2 & E3 & _ & E5). rewrite jparse_f_S by exact E5. rewrite E1, E2, E3, Hc1.
+    change (c :: t ++ rest) with ((c :: t) ++ rest). rewrite span_num_app; [| exact Hc | exact Hfo]. rewrite Hwf. reflexivity.
+  - cbn [ser]. unfold ser_str. cbn [app]. rewrite jparse_f_S by reflexivity. cbn [N.eqb Pos.eqb]. rewrite <- app_assoc. cbn [app].
+    rewrite parse_str_esc by exact Hu. reflexivity.
+  - cbn [ser]. cbn [app]. rewrite jparse_f_S by reflexivity. cbn [N.eqb Pos.eqb]. cbn [wfv] in Hwf. rewrite forallb_forall in Hwf.
+    cbn [utf8v] in Hu. rewrite forallb_forall in Hu.
+    destruct l as [|v l']; [reflexivity|]. remember (v :: l') as l.
+    assert (Hhd : exists c t, join 44 (map ser l) = c :: t /\ (c =? 93) = false /\ is_jws c = false).
+    { subst l. destruct (ser_head v) as (c & t & Ht & Hc); [apply Hwf; left; reflexivity|].
+      destruct l' as [|v2 l''].
+      - cbn [map join]. rewrite Ht. eexists; eexists; (split; [reflexivity | exact Hc]).
+      - cbn [map]. rewrite join_cons2. rewrite Ht. cbn [app]. eexists; eexists; (split; [reflexivity | exact Hc]). }
+    destruct Hhd as (c & t & Ht & Hc & Hws). rewrite <- app_assoc. cbn [app].
+    destruct (join 44 (map ser l) ++ 93 :: rest) as [|c2 r2] eqn:Eb; [rewrite Ht in Eb; discriminate Eb|].
+    assert (c2 = c) by (rewrite Ht in Eb; cbn [app] in Eb; congruence). subst c2.
+    rewrite skip_ws_nows by exact Hws. rewrite Hc. rewrite <- Eb.
+    cbn [size] in Hf.
+    rewrite parse_elems_ok; [reflexivity | subst l; discriminate | pose proof (list_sum_ge _ size l size_pos); lia |].
+    intros x Hx rest' Hr. rewrite Forall_forall in H. apply H; [exact Hx | apply Hwf; exact Hx | apply Hu; exact Hx | | destruct x; exact I || exact Hr].
+    pose proof (list_sum_in _ size l x Hx). lia.
+  - cbn [ser]. cbn [app]. rewrite jparse_f_S by reflexivity. cbn [N.eqb Pos.eqb]. cbn [wfv] in Hwf. rewrite forallb_forall in Hwf.
+    cbn [utf8v] in Hu. rewrite forallb_forall in Hu.
+    destruct m as [|kv m']; [reflexivity|]. remember (kv :: m') as m0.
+    fold ser_member.
+    assert (Hhd : exists t, join 44 (map ser_member m0) = 34 :: t).
+    { subst m0. destruct kv as [k v]. destruct m' as [|kv2 m''].
+      - cbn [map join]. unfold ser_member, ser_str. cbn [app]. eexists; reflexivity.
+      - cbn [map]. rewrite join_cons2. unfold ser_member at 1, ser_str. cbn [app]. eexists; reflexivity. }
+    destruct Hhd as (t & Ht). rewrite <- app_assoc. cbn [app].
+    destruct (join 44 (map ser_member m0) ++ 125 :: rest) as [|c2 r2] eqn:Eb; [rewrite Ht in Eb; discriminate Eb|].
+    assert (c2 = 34) by (rewrite Ht in Eb; cbn [app] in Eb; congruence). subst c2.
+    rewrite skip_ws_nows by reflexivity. cbn [N.eqb Pos.eqb]. rewrite <- Eb.
+    cbn [size] in Hf.
+    rewrite parse_members_ok; [reflexivity | subst m0; discriminate | pose proof (list_sum_ge _ (fun kv => size (snd kv)) m0 (fun kv => size_pos (snd kv))); lia | |].
+    { intros x Hx. specialize (Hu x Hx). apply andb_true_iff in Hu. tauto. }
+    intros x Hx rest' Hr. rewrite Forall_forall in H.
+    apply H; [exact Hx | apply Hwf; exact Hx | specialize (Hu x Hx); apply andb_true_iff in Hu; tauto | | destruct (snd x); exact I || exact Hr].
+    pose proof (list_sum_in _ (fun kv => size (snd kv)) m0 x Hx). cbn beta in H0. lia.
+Qed.
+
+
+Lemma join_length : forall sep ls, (list_sum (map (@length N) ls) <= length (join sep ls))%nat.
+Proof.
+  intros sep ls. induction ls as [|x r IH]; [cbn; lia|].
+  destruct r as [|y r'].
+  - cbn. lia.
+  - rewrite join_cons2. rewrite app_length. cbn [length map list_sum fold_right] in *. unfold list_sum in IH. lia.
+Qed.
+Lemma list_sum_le : forall (A : Type) (f g : A -> nat) l, (forall x, In x l -> f x <= g x)%nat ->
+  (list_sum (map f l) <= list_sum (map g l))%nat.
+Proof.
+  intros A f g l H. induction l as [|x l IH]; [cbn; lia|]. cbn [map list_sum fold_right].
+  assert (H1 := H x (or_introl eq_refl)). assert (H2 : (list_sum (map f l) <= list_sum (map g l))%nat) by (apply IH; intros; apply H; right; assumption).
+  unfold list_sum in H2. lia.
+Qed.
+Lemma size_le_ser : forall v, wfv v = true -> (size v <= length (ser v))%nat.
+Proof.
+  induction v using jvalue_ind'; intros Hwf; cbn [size ser].
+  - cbn; lia.
+  - destruct b; cbn; lia.
+  - cbn [wfv] in Hwf. destruct t; [discriminate Hwf | cbn [length]; lia].
+  - unfold ser_str. cbn [length]. lia.
+  - cbn [wfv] in Hwf. rewrite forallb_forall in Hwf. cbn [length]. rewrite app_length. cbn [length].
+    pose proof (join_length 44 (map ser l)) as Hj. rewrite map_map in Hj.
+    assert (Hs : (list_sum (map size l) <= list_sum (map (fun x => length (ser x)) l))%nat).
+    { apply list_sum_le. intros x Hx. rewrite Forall_forall in H. apply H; auto. }
+    lia.
+  - cbn [wfv] in Hwf. rewrite forallb_forall in Hwf. cbn [length]. rewrite app_length. cbn [length].
+    fold ser_member.
+    pose proof (join_length 44 (map ser_member m)) as Hj. rewrite map_map in Hj.
+    assert (Hs : (list_sum (map (fun kv => size (snd kv)) m) <= list_sum (map (fun x => length (ser_member x)) m))%nat).
+    { apply list_sum_le. intros [k x] Hx. rewrite Forall_forall in H. specialize (H (k, x) Hx (Hwf (k, x) Hx)). cbn [snd] in *.
+      unfold ser_member. rewrite app_length. cbn [length]. lia. }
+    lia.
+Qed.
+
+Theorem jparse_ser : forall v rest, wfv v = true -> utf8v v = true -> follow_ok v rest -> jparse (ser v ++ rest) = Some (v, rest).
+Proof.
+  intros v rest Hwf Hu Hfo. unfold jparse. apply jparse_f_ser; [exact Hwf | exact Hu | | exact Hfo].
+  rewrite app_length. pose proof (size_le_ser v Hwf). lia.
+Qed.
+Theorem jparse_ser_obj : forall o rest, wfv (JObj o) = true -> utf8v (JObj o) = true -> jparse (ser (JObj o) ++ rest) = Some (JObj o, rest).
+Proof. intros. apply jparse_ser; [assumption | assumption | exact I]. Qed.
+
+(** * Round 2: decoding into a Go map (member order, duplicate keys, float64 numbers) *)
+
+
+Lemma nlist_eqb_eq : forall a b, nlist_eqb a b = true -> a = b.
+Proof.
+  induction a as [|x a IH]; intros [|y b] H; try discriminate; [reflexivity|].
+  cbn [nlist_eqb] in H. apply andb_true_iff in H. destruct H as [H1 H2]. apply N.eqb_eq in H1. subst. f_equal. auto.
+Qed.
+Lemma nlist_eqb_refl : forall a, nlist_eqb a a = true.
+Proof. induction a as [|x a IH]; [reflexivity|]. cbn [nlist_eqb]. rewrite N.eqb_refl, IH. reflexivity. Qed.
+
+Lemma ins_in : forall kv m x, In x (ins kv m) -> x = kv \/ In x m.
+Proof.
+  intros kv m. induction m as [|kv' m IH]; intros x H.
+  - cbn in H. destruct H as [H|[]]. left. congruence.
+  - cbn [ins] in H. destruct (key_ltb (fst kv) (fst kv')).
+    + destruct H as [H|H]; [left; congruence | right; exact H].
+    + destruct (key_ltb (fst kv') (fst kv)).
+      * destruct H as [H|H]; [right; left; exact H|]. destruct (IH x H) as [H'|H']; [left; exact H' | right; right; exact H'].
+      * right. exact H.
+Qed.
+
+Lemma keys_sorted_cons : forall k ks, keys_sorted (k :: ks) = match ks with k2 :: _ => key_ltb k k2 && keys_sorted ks | [] => true end.
+Proof. reflexivity. Qed.
+
+Lemma keys_sorted_tail : forall k ks, keys_sorted (k :: ks) = true -> keys_sorted ks = true.
+Proof. intros k ks H. rewrite keys_sorted_cons in H. destruct ks; [reflexivity|]. apply andb_true_iff in H. tauto. Qed.
+Lemma ins_head : forall kv m, exists x r, ins kv m = x :: r /\ (fst x = fst kv \/ match m with y :: _ => x = y | [] => False end).
+Proof.
+  intros kv [|kv' m]; cbn [ins].
+  - eexists; eexists; split; [reflexivity | left; reflexivity].
+  - destruct (key_ltb (fst kv) (fst kv')); [eexists; eexists; split; [reflexivity | left; reflexivity]|].
+    destruct (key_ltb (fst kv') (fst kv)); eexists; eexists; (split; [reflexivity | right; reflexivity]).
+Qed.
+
+Lemma ins_sorted : forall kv m, keys_sorted (map fst m) = true -> keys_sorted (map fst (ins kv m)) = true.
+Proof.
+  intros kv m. induction m as [|kv' m IH]; intros H; [reflexivity|].
+  cbn [ins]. destruct (key_ltb (fst kv) (fst kv')) eqn:E1.
+  - cbn [map]. rewrite keys_sorted_cons. cbn [map] in H. rewrite E1, H. reflexivity.
+  - destruct (key_ltb (fst kv') (fst kv)) eqn:E2; [|exact H].
+    cbn [map] in *. rewrite keys_sorted_cons in H.
+    assert (Ht : keys_sorted (map fst m) = true).
+    { destruct (map fst m); [reflexivity|]. apply andb_true_iff in H. tauto. }
+    specialize (IH Ht). rewrite keys_sorted_cons.
+    destruct (ins_head kv m) as (x & r & Hx & Hd). rewrite Hx in *. cbn [map] in *. rewrite IH, andb_true_r.
+    destruct Hd as [Hd|Hd]; [rewrite Hd; exact E2|].
+    destruct m as [|y m']; [destruct Hd|]. subst x. cbn [map] in H. apply andb_true_iff in H. tauto.
+Qed.
+
+Section NormFacts.
+  Variable renum : list N -> list N.
+  Hypothesis renum_tok : forall t, numtok t = true -> numtok (renum t) = true.
+
+  Definition nfold (m : list (list N * jvalue)) := fold_right (fun kv acc => ins (fst kv, norm renum (snd kv)) acc) [] m.
+  Lemma nfold_sorted : forall m, keys_sorted (map fst (nfold m)) = true.
+  Proof. induction m as [|kv m IH]; [reflexivity|]. cbn [nfold fold_right]. apply ins_sorted. exact IH. Qed.
+  Lemma nfold_in : forall m x, In x (nfold m) -> exists kv, In kv m /\ x = (fst kv, norm renum (snd kv)).
+  Proof.
+    induction m as [|kv m IH]; intros x H; [destruct H|]. cbn [nfold fold_right] in H.
+    apply ins_in in H. destruct H as [H|H]; [exists kv; split; [left; reflexivity | exact H]|].
+    destruct (IH x H) as (kv' & H1 & H2). exists kv'. split; [right; exact H1 | exact H2].
+  Qed.
+
+  Lemma norm_canon : forall v, canon (norm renum v) = true.
+  Proof.
+    induction v using jvalue_ind'; cbn [norm canon]; try reflexivity.
+    - apply forallb_forall. intros x Hx. apply in_map_iff in Hx. destruct Hx as (y & <- & Hy). rewrite Forall_forall in H. auto.
+    - fold (nfold m). rewrite nfold_sorted. cbn [andb]. apply forallb_forall. intros x Hx.
+      destruct (nfold_in m x Hx) as (kv & Hkv & ->). cbn [snd]. rewrite Forall_forall in H. auto.
+  Qed.
+  Lemma norm_wfv : forall v, wfv v = true -> wfv (norm renum v) = true.
+  Proof.
+    induction v using jvalue_ind'; intros Hwf; cbn [norm wfv]; try reflexivity.
+    - apply renum_tok. exact Hwf.
+    - cbn [wfv] in Hwf. rewrite forallb_forall in Hwf. apply forallb_forall. intros x Hx. apply in_map_iff in Hx.
+      destruct Hx as (y & <- & Hy). rewrite Forall_forall in H. auto.
+    - cbn [wfv] in Hwf. rewrite forallb_forall in Hwf. fold (nfold m). apply forallb_forall. intros x Hx.
+      destruct (nfold_in m x Hx) as (kv & Hkv & ->). cbn [snd]. rewrite Forall_forall in H. auto.
+  Qed.
+
+  (** a canonical value whose number tokens are fixed by [renum] is its own normal form *)
+  Lemma norm_fixed : forall v, canon v = true -> numfixed renum v = true -> norm renum v = v.
+  Proof.
+    induction v using jvalue_ind'; intros Hc Hn; cbn [norm]; try reflexivity.
+    - cbn [numfixed] in Hn. apply nlist_eqb_eq in Hn. rewrite Hn. reflexivity.
+    - f_equal. cbn [canon numfixed] in *. rewrite forallb_forall in Hc, Hn. rewrite <- (map_id l) at 2. apply map_ext_in.
+      intros x Hx. rewrite Forall_forall in H. auto.
+    - f_equal. cbn [canon numfixed] in *. apply andb_true_iff in Hc. destruct Hc as [Hs Hc]. rewrite forallb_forall in Hc, Hn.
+      rewrite Forall_forall in H. fold (nfold m).
+      induction m as [|kv m IHm]; [reflexivity|]. cbn [nfold fold_right]. fold (nfold m).
+      rewrite IHm.
+      + rewrite H; [| left; reflexivity | apply Hc; left; reflexivity | apply Hn; left; reflexivity].
+        replace (fst kv, snd kv) with kv by (destruct kv; reflexivity).
+        destruct m as [|kv2 m']; [reflexivity|]. cbn [ins]. cbn [map] in Hs. rewrite keys_sorted_cons in Hs.
+        apply andb_true_iff in Hs. destruct Hs as [Hs _]. rewrite Hs. reflexivity.
+      + intros x Hx. apply H. right. exact Hx.
+      + cbn [map] in Hs. apply keys_sorted_tail in Hs. exact Hs.
+      + intros x Hx. apply Hc. right. exact Hx.
+      + intros x Hx. apply Hn. right. exact Hx.
+  Qed.
+End NormFacts.
+
+
+Section WfLists.
+  Variable pv : list N -> option (jvalue * list N).
+  Hypothesis pv_wf : forall s v r, pv s = Some (v, r) -> wfv v = true.
+  Lemma parse_elems_wf : forall n s l r, parse_elems pv n s = Some (l, r) -> forallb wfv l = true.
+  Proof.
+    induction n as [|n IH]; intros s l r H; [discriminate H|]. cbn [parse_elems] in H.
+    destruct (pv s) as [[v r0]|] eqn:E; [|discriminate H]. destruct (skip_ws r0) as [|c r1]; [discriminate H|].
+    pose proof (pv_wf _ _ _ E) as Hv.
+    destruct (c =? 93); [injection H as <- <-; cbn [forallb]; rewrite Hv; reflexivity|].
+    destruct (c =? 44); [|discriminate H].
+    destruct (parse_elems pv n r1) as [[l' r']|] eqn:E2; [|discriminate H]. injection H as <- <-.
+    cbn [forallb]. rewrite Hv. exact (IH _ _ _ E2).
+  Qed.
+  Lemma parse_members_wf : forall n s l r, parse_members pv n s = Some (l, r) -> forallb (fun kv => wfv (snd kv)) l = true.
+  Proof.
+    induction n as [|n IH]; intros s l r H; [discriminate H|]. cbn [parse_members] in H.
+    destruct (skip_ws s) as [|q s1]; [discriminate H|]. destruct (q =? 34); [|discriminate H].
+    destruct (parse_str s1) as [[k s2]|]; [|discriminate H]. destruct (skip_ws s2) as [|col s3]; [discriminate H|].
+    destruct (col =? 58); [|discriminate H].
+    destruct (pv s3) as [[v r0]|] eqn:E; [|discriminate H]. destruct (skip_ws r0) as [|c r1]; [discriminate H|].
+    pose proof (pv_wf _ _ _ E) as Hv.
+    destruct (c =? 125); [injection H as <- <-; cbn [forallb snd]; rewrite Hv; reflexivity|].
+    destruct (c =? 44); [|discriminate H].
+    destruct (parse_members pv n r1) as [[l' r']|] eqn:E2; [|discriminate H]. injection H as <- <-.
+    cbn [forallb snd]. rewrite Hv. exact (IH _ _ _ E2).
+  Qed.
+End WfLists.
+
+Lemma jparse_f_wf : forall fuel s v r, jparse_f fuel s = Some (v, r) -> wfv v = true.
+Proof.
+  induction fuel as [|f IH]; intros s v r H; [discriminate H|]. cbn [jparse_f] in H.
+  destruct (skip_ws s) as [|c s']; [discriminate H|].
+  destruct (c =? 34). { destruct (parse_str s') as [[t r']|]; [injection H as <- <-; reflexivity | discriminate H]. }
+  destruct (c =? 91).
+  { destruct (skip_ws s') as [|c2 r2]; [discriminate H|]. destruct (c2 =? 93); [injection H as <- <-; reflexivity|].
+    destruct (parse_elems (jparse_f f) f s') as [[l r']|] eqn:E; [|discriminate H]. injection H as <- <-.
+    cbn [wfv]. exact (parse_elems_wf _ IH _ _ _ _ E). }
+  destruct (c =? 123).
+  { destruct (skip_ws s') as [|c2 r2]; [discriminate H|]. destruct (c2 =? 125); [injection H as <- <-; reflexivity|].
+    destruct (parse_members (jparse_f f) f s') as [[l r']|] eqn:E; [|discriminate H]. injection H as <- <-.
+    cbn [wfv]. exact (parse_members_wf _ IH _ _ _ _ E). }
+  destruct (numchar c).
+  { destruct (span_num (c :: s')) as [t r']. destruct (numtok t) eqn:E; [injection H as <- <-; exact E | discriminate H]. }
+  destruct (strip lit_null (c :: s')); [injection H as <- <-; reflexivity|].
+  destruct (strip lit_true (c :: s')); [injection H as <- <-; reflexivity|].
+  destruct (strip lit_false (c :: s')); [injection H as <- <-; reflexivity | discriminate H].
+Qed.
+
+Lemma jdec0_ser : forall v, wfv v = true -> utf8v v = true -> jdec0 (ser v) = Some v.
+Proof.
+  intros v H Hu. unfold jdec0. rewrite <- (app_nil_r (ser v)). rewrite jparse_ser; [reflexivity | exact H | exact Hu | destruct v; exact I].
+Qed.
+Lemma jdec0_wf : forall t v, jdec0 t = Some v -> wfv v = true.
+Proof.
+  intros t v H. unfold jdec0, jparse in H. destruct (jparse_f (S (length t)) t) as [[v' [|c r]]|] eqn:E; try discriminate H.
+  injection H as <-. exact (jparse_f_wf _ _ _ _ E).
+Qed.
+
+Section Dec.
+  Variable renum : list N -> list N.
+  Hypothesis renum_tok : forall t, numtok t = true -> numtok (renum t) = true.
+
+  (** what the decoder returns is well formed and canonical *)
+  Lemma jdec_wf_canon : forall t v, jdec renum t = Some v -> wfv v = true /\ canon v = true.
+  Proof.
+    intros t v H. unfold jdec in H. destruct (jdec0 t) as [v0|] eqn:E; [|discriminate H]. injection H as <-.
+    split; [apply norm_wfv; [exact renum_tok | exact (jdec0_wf _ _ E)] | apply norm_canon].
+  Qed.
+  (** the decoder inverts the marshaller on canonical values whose number tokens are [renum]-fixed *)
+  Lemma jdec_ser : forall v, wfv v = true -> utf8v v = true -> canon v = true -> numfixed renum v = true -> jdec renum (ser v) = Some v.
+  Proof. intros v H1 Hu H2 H3. unfold jdec. rewrite jdec0_ser by assumption. rewrite norm_fixed by assumption. reflexivity. Qed.
+
+  (** re-parsing a formatted header never changes or loses annotations, for ANY title line the parser accepts *)
+  Theorem reparse_keeps : forall h m d, parse_header (jdec renum) h = HObject (JObj m) d -> numfixed renum (JObj m) = true ->
+    utf8v (JObj m) = true -> parse_header (jdec renum) (ser (JObj m)) = HObject (JObj m) [].
+  Proof.
+    intros h m d H Hn Hu. unfold parse_header in H. destruct (scan_obj h) as [[a b]|]; [|discriminate H].
+    destruct (jdec renum (slice a b h)) as [v|] eqn:E; [|discriminate H]. injection H as -> _.
+    destruct (jdec_wf_canon _ _ E) as [Hw Hc].
+    apply parse_header_formatted; [exact Hw | apply jdec_ser; assumption].
+  Qed.
+End Dec.
+
+Lemma numfixed_id : forall v, numfixed (fun t => t) v = true.
+Proof.
+  induction v using jvalue_ind'; cbn [numfixed]; try reflexivity.
+  - apply nlist_eqb_refl.
+  - apply forallb_forall. rewrite Forall_forall in H. exact H.
+  - apply forallb_forall. rewrite Forall_forall in H. exact H.
+Qed.
+
+(** * Round 2: the number path on integer tokens *)
+
+
+Notation isd := isdig.
+Lemma isd_spec : forall c, isd c = true -> 48 <= c <= 57.
+Proof. intros c H. unfold isdig in H. apply andb_true_iff in H. destruct H as [H1 H2]. apply N.leb_le in H1, H2. lia. Qed.
+
+Lemma dval_snoc : forall ds d, dval (ds ++ [d]) = dval ds * 10 + (d - 48).
+Proof. intros. unfold dval. rewrite fold_left_app. reflexivity. Qed.
+
+(** canonical digit string: digits only, no leading zero unless it is "0" *)
+Definition canon_digits (ds : list N) : bool :=
+  all_digits ds && match ds with [] => false | [_] => true | c :: _ => negb (c =? 48) end.
+
+Lemma dval_pos : forall ds, all_digits ds = true -> (match ds with c :: _ => c <> 48 | [] => False end) -> 0 < dval ds.
+Proof.
+  intros ds. induction ds as [|d ds IH] using rev_ind; intros Hd Hh; [destruct Hh|].
+  unfold all_digits in Hd. rewrite forallb_app in Hd. apply andb_true_iff in Hd. destruct Hd as [Hd1 Hd2].
+  cbn [forallb] in Hd2. rewrite andb_true_r in Hd2. apply isd_spec in Hd2.
+  rewrite dval_snoc. destruct ds as [|c r].
+  - cbn [app] in Hh. cbn. lia.
+  - cbn [app] in Hh. specialize (IH Hd1 Hh). lia.
+Qed.
+
+Lemma digits_f_dval : forall ds, canon_digits ds = true -> forall f, dval ds < 2 ^ N.of_nat f -> digits_f (S f) (dval ds) = ds.
+Proof.
+  intros ds. induction ds as [|d ds IH] using rev_ind; intros Hc f Hf; [discriminate Hc|].
+  unfold canon_digits in Hc. apply andb_true_iff in Hc. destruct Hc as [Hd Hh].
+  pose proof Hd as Hd'. unfold all_digits in Hd'. rewrite forallb_app in Hd'. apply andb_true_iff in Hd'. destruct Hd' as [Hd1 Hd2].
+  cbn [forallb] in Hd2. rewrite andb_true_r in Hd2. apply isd_spec in Hd2.
+  rewrite dval_snoc in *. destruct ds as [|c r].
+  - cbn [dval fold_left app]. cbn [digits_f]. replace (0 * 10 + (d - 48) <? 10) with true by (symmetry; apply N.ltb_lt; lia).
+    f_equal. lia.
+  - assert (Hc0 : c <> 48).
+    { cbn [app] in Hh. destruct (r ++ [d]) eqn:E; [destruct r; discriminate E|]. apply negb_true_iff, N.eqb_neq in Hh. exact Hh. }
+    assert (Hpos : 0 < dval (c :: r)) by (apply dval_pos; [exact Hd1 | exact Hc0]).
+    set (v := dval (c :: r)) in *. cbn [digits_f].
+    replace (v * 10 + (d - 48) <? 10) with false by (symmetry; apply N.ltb_ge; lia).
+    assert (Hq : (v * 10 + (d - 48)) / 10 = v).
+    { symmetry. apply (N.div_unique _ _ _ (d - 48)); lia. }
+    assert (Hm : (v * 10 + (d - 48)) mod 10 = d - 48).
+    { symmetry. apply (N.mod_unique _ _ v); lia. }
+    rewrite Hq, Hm. destruct f as [|f'].
+    { change (2 ^ N.of_nat 0) with 1 in Hf. lia. }
+    rewrite IH.
+    + f_equal. f_equal. lia.
+    + unfold canon_digits, all_digits. rewrite Hd1. cbn [andb]. destruct r; [reflexivity|]. apply negb_true_iff, N.eqb_neq. exact Hc0.
+    + rewrite Nat2N.inj_succ, N.pow_succ_r' in Hf. lia.
+Qed.
+
+Lemma digits_dval : forall ds, canon_digits ds = true -> digits (dval ds) = ds.
+Proof.
+  intros ds H. unfold digits. apply digits_f_dval; [exact H|]. rewrite N2Nat.id. apply N.size_gt.
+Qed.
+
+Lemma size_le_53 : forall n, n < 2 ^ 53 -> (N.size n <=? 53) = true.
+Proof.
+  intros n H. apply N.leb_le. pose proof (N.size_le n) as H1.
+  destruct (N.le_gt_cases (N.size n) 53) as [Hle|Hgt]; [exact Hle|]. exfalso.
+  assert (2 ^ 54 <= 2 ^ N.size n) by (apply N.pow_le_mono_r; lia).
+  assert (N.succ_double n < 2 ^ 54).
+  { rewrite N.succ_double_spec. change (2 ^ 54) with (2 * 2 ^ 53). lia. }
+  lia.
+Qed.
+
+Lemma round64_exact : forall n, n <= 2 ^ 53 -> round64 n = n.
+Proof.
+  intros n H. destruct (N.eq_dec n (2 ^ 53)) as [->|Hne]; [vm_compute; reflexivity|].
+  unfold round64. rewrite size_le_53 by lia. reflexivity.
+Qed.
+
+(** integers up to 2^53 in absolute value, written canonically (strconv.Itoa), are fixed points of read-then-write *)
+Definition small_int_tok (t : list N) : bool :=
+  let (neg, ds) := split_sign t in
+  canon_digits ds && (dval ds <=? 2 ^ 53) && (negb neg || negb (dval ds =? 0)).
+
+Lemma digit_numchar : forall c, isd c = true -> numchar c = true.
+Proof. intros c H. unfold numchar. unfold isdig in H. rewrite H. reflexivity. Qed.
+Lemma all_digits_numchar : forall ds, all_digits ds = true -> forallb numchar ds = true.
+Proof.
+  intros ds H. unfold all_digits in H. rewrite forallb_forall in *. intros c Hc. apply digit_numchar. apply (H c Hc).
+Qed.
+Lemma num_step_3 : forall ds, all_digits ds = true -> fold_left num_step ds 3 = 3.
+Proof.
+  induction ds as [|c ds IH]; intros H; [reflexivity|]. cbn [all_digits forallb] in H. apply andb_true_iff in H. destruct H as [Hc H].
+  cbn [fold_left]. unfold num_step at 2. rewrite Hc. apply IH. exact H.
+Qed.
+Lemma canon_digits_state : forall ds st, canon_digits ds = true -> st = 0 \/ st = 1 ->
+  num_final (fold_left num_step ds st) = true.
+Proof.
+  intros ds st H Hst. unfold canon_digits in H. apply andb_true_iff in H. destruct H as [Hd Hh].
+  destruct ds as [|c r]; [discriminate Hh|]. pose proof Hd as Hd'. cbn [all_digits forallb] in Hd'. apply andb_true_iff in Hd'.
+  destruct Hd' as [Hc Hr]. pose proof (isd_spec c Hc) as Hc'. cbn [fold_left].
+  assert (Hs : num_step st c = if c =? 48 then 2 else 3).
+  { destruct Hst as [-> | ->]; unfold num_step.
+    - replace (c =? 45) with false by (symmetry; apply N.eqb_neq; lia). rewrite Hc. destruct (c =? 48); reflexivity.
+    - rewrite Hc. destruct (c =? 48); reflexivity. }
+  rewrite Hs. destruct (c =? 48) eqn:E.
+  - destruct r as [|c2 r']; [reflexivity|]. discriminate Hh.
+  - rewrite num_step_3 by exact Hr. reflexivity.
+Qed.
+Lemma canon_digits_numtok : forall ds, canon_digits ds = true -> numtok ds = true /\ numtok (45 :: ds) = true.
+Proof.
+  intros ds H. pose proof H as H'. unfold canon_digits in H'. apply andb_true_iff in H'. destruct H' as [Hd _].
+  unfold numtok. split.
+  - rewrite all_digits_numchar by exact Hd. cbn [andb]. apply canon_digits_state; [exact H | left; reflexivity].
+  - cbn [forallb fold_left]. rewrite all_digits_numchar by exact Hd. cbn [andb numchar N.eqb Pos.eqb N.leb N.compare Pos.compare Pos.compare_cont orb andb].
+    change (num_step 0 45) with 1. apply canon_digits_state; [exact H | right; reflexivity].
+Qed.
+Lemma canon_digits_sign : forall ds, canon_digits ds = true -> split_sign ds = (false, ds).
+Proof.
+  intros ds H. unfold canon_digits in H. apply andb_true_iff in H. destruct H as [Hd _]. destruct ds as [|c r]; [reflexivity|].
+  cbn [all_digits forallb] in Hd. apply andb_true_iff in Hd. destruct Hd as [Hc _]. apply isd_spec in Hc.
+  cbn [split_sign]. replace (c =? 45) with false by (symmetry; apply N.eqb_neq; lia). reflexivity.
+Qed.
+
+Lemma fmt_small : forall n, n <= 2 ^ 53 -> fmt_nat64 n = digits n \/ n = 2 ^ 53.
+Proof.
+  intros n H. destruct (N.eq_dec n (2 ^ 53)) as [->|Hne]; [right; reflexivity|]. left.
+  unfold fmt_nat64. rewrite size_le_53 by lia. reflexivity.
+Qed.
+Lemma fmt_small' : forall n, n <= 2 ^ 53 -> fmt_nat64 n = digits n.
+Proof.
+  intros n H. destruct (fmt_small n H) as [E| ->]; [exact E | vm_compute; reflexivity].
+Qed.
+
+Theorem small_int_fixed : forall t, small_int_tok t = true -> renum64 t = t.
+Proof.
+  intros t H. unfold small_int_tok in H.
+  assert (Hcase : (exists ds, t = 45 :: ds /\ canon_digits ds = true /\ dval ds <= 2 ^ 53 /\ dval ds <> 0) \/
+                  (canon_digits t = true /\ dval t <= 2 ^ 53)).
+  { destruct t as [|c r]; [discriminate H|]. cbn [split_sign] in H. destruct (c =? 45) eqn:E.
+    - apply N.eqb_eq in E. subst c. left. exists r. apply andb_true_iff in H. destruct H as [H H3]. apply andb_true_iff in H.
+      destruct H as [H1 H2]. apply N.leb_le in H2. cbn [negb orb] in H3. apply negb_true_iff, N.eqb_neq in H3. tauto.
+    - right. apply andb_true_iff in H. destruct H as [H _]. apply andb_true_iff in H. destruct H as [H1 H2]. apply N.leb_le in H2. tauto. }
+  destruct Hcase as [(ds & -> & Hc & Hle & Hnz) | (Hc & Hle)].
+  - destruct (canon_digits_numtok ds Hc) as [_ Hnt].
+    pose proof Hc as Hc'. unfold canon_digits in Hc'. apply andb_true_iff in Hc'. destruct Hc' as [Hd _].
+    unfold renum64. rewrite Hnt. unfold is_int_tok, renum_int. cbn [split_sign N.eqb Pos.eqb snd]. rewrite Hd.
+    rewrite round64_exact by exact Hle. apply N.eqb_neq in Hnz. rewrite Hnz.
+    rewrite fmt_small' by exact Hle. rewrite digits_dval by exact Hc. rewrite Hnt. reflexivity.
+  - destruct (canon_digits_numtok t Hc) as [Hnt _]. pose proof (canon_digits_sign t Hc) as Hs.
+    pose proof Hc as Hc'. unfold canon_digits in Hc'. apply andb_true_iff in Hc'. destruct Hc' as [Hd _].
+    unfold renum64. rewrite Hnt. unfold is_int_tok, renum_int. rewrite Hs. cbn [snd]. rewrite Hd.
+    rewrite round64_exact by exact Hle. rewrite fmt_small' by exact Hle. rewrite digits_dval by exact Hc. rewrite Hnt. reflexivity.
+Qed.
+
+Lemma renum64_tok : forall t, numtok t = true -> numtok (renum64 t) = true.
+Proof.
+  intros t H. unfold renum64. rewrite H.
+  destruct (numtok (if is_int_tok t then renum_int t else renum_any t)) eqn:E; [exact E | exact H].
+Qed.
+
+(** * Round 2: re-parsing a formatted header; round trips without any hypothesis on the decoder *)
+
+
+Lemma put_in : forall kv m x, In x (put kv m) -> x = kv \/ In x m.
+Proof.
+  intros kv m. induction m as [|kv' m IH]; intros x H.
+  - cbn in H. destruct H as [H|[]]. left. congruence.
+  - cbn [put] in H. destruct (key_ltb (fst kv) (fst kv')).
+    + destruct H as [H|H]; [left; congruence | right; exact H].
+    + destruct (key_ltb (fst kv') (fst kv)).
+      * destruct H as [H|H]; [right; left; exact H|]. destruct (IH x H) as [H'|H']; [left; exact H' | right; right; exact H'].
+      * destruct H as [H|H]; [left; congruence | right; right; exact H].
+Qed.
+Lemma put_head : forall kv m, exists x r, put kv m = x :: r /\ (fst x = fst kv \/ match m with y :: _ => x = y | [] => False end).
+Proof.
+  intros kv [|kv' m]; cbn [put].
+  - eexists; eexists; split; [reflexivity | left; reflexivity].
+  - destruct (key_ltb (fst kv) (fst kv')); [eexists; eexists; split; [reflexivity | left; reflexivity]|].
+    destruct (key_ltb (fst kv') (fst kv)); eexists; eexists; (split; [reflexivity|]); [right; reflexivity | left; reflexivity].
+Qed.
+Lemma lex_ltb_total : forall a b, lex_ltb a b = false -> lex_ltb b a = false -> a = b.
+Proof.
+  induction a as [|x a IH]; intros [|y b] H1 H2; try reflexivity; try discriminate.
+  cbn [lex_ltb] in *. apply orb_false_iff in H1, H2. destruct H1 as [L1 H1]. destruct H2 as [L2 H2].
+  apply N.ltb_ge in L1, L2. assert (x = y) by lia. subst y. rewrite N.eqb_refl in H1, H2. cbn [andb] in H1, H2.
+  f_equal. apply IH; assumption.
+Qed.
+
+Lemma put_sorted : forall kv m, keys_sorted (map fst m) = true -> keys_sorted (map fst (put kv m)) = true.
+Proof.
+  intros kv m. induction m as [|kv' m IH]; intros H; [reflexivity|].
+  cbn [put]. destruct (key_ltb (fst kv) (fst kv')) eqn:E1.
+  - cbn [map]. rewrite keys_sorted_cons. cbn [map] in H. rewrite E1, H. reflexivity.
+  - destruct (key_ltb (fst kv') (fst kv)) eqn:E2.
+    + cbn [map] in *. pose proof (keys_sorted_tail _ _ H) as Ht.
+      specialize (IH Ht). rewrite keys_sorted_cons.
+      destruct (put_head kv m) as (x & r & Hx & Hd). rewrite Hx in *. cbn [map] in *. rewrite IH, andb_true_r.
+      destruct Hd as [Hd|Hd]; [rewrite Hd; exact E2|].
+      destruct m as [|y m']; [destruct Hd|]. subst x. cbn [map] in H. rewrite keys_sorted_cons in H. apply andb_true_iff in H. tauto.
+    + (* same encoded key: replace *)
+      assert (Heq : ser_str (fst kv) = ser_str (fst kv')) by (apply lex_ltb_total; assumption).
+      cbn [map] in *. rewrite keys_sorted_cons in *. destruct (map fst m) as [|k2 ks]; [reflexivity|].
+      unfold key_ltb in *. rewrite Heq. exact H.
+Qed.
+
+Section Reparse.
+  Variable renum : list N -> list N.
+  Hypothesis renum_tok : forall t, numtok t = true -> numtok (renum t) = true.
+  Let dec := jdec renum.
+
+  Lemma read_header_formatted : forall id ann seq q, wfv (JObj ann) = true -> utf8v (JObj ann) = true -> canon (JObj ann) = true ->
+    numfixed renum (JObj ann) = true -> read_header dec (mkp id (header_info ann) seq q) = RRec (mkw id ann seq q).
+  Proof. intros. apply read_header_written; [assumption | apply jdec_ser; assumption]. Qed.
+
+  Lemma put_wf_canon : forall kv m, wfv (JObj m) = true -> canon (JObj m) = true -> wfv (snd kv) = true -> canon (snd kv) = true ->
+    wfv (JObj (put kv m)) = true /\ canon (JObj (put kv m)) = true.
+  Proof.
+    intros kv m Hw Hc Hwk Hck. cbn [wfv canon] in *. apply andb_true_iff in Hc. destruct Hc as [Hs Hc].
+    rewrite forallb_forall in Hw, Hc. split.
+    - apply forallb_forall. intros x Hx. apply put_in in Hx. destruct Hx as [->|Hx]; auto.
+    - rewrite put_sorted by exact Hs. cbn [andb]. apply forallb_forall. intros x Hx. apply put_in in Hx. destruct Hx as [->|Hx]; auto.
+  Qed.
+
+  (** Re-parsing the formatted header of ANY record the header parser accepts gives the same record: nothing is changed,
+      nothing is lost (the annotations are those decoded into the Go map: members by key, numbers as [renum] tokens;
+      [numfixed]: the number tokens of the record are stable under read-then-write) *)
+  Theorem reparse_record : forall p r, read_header dec p = RRec r -> numfixed renum (JObj (w_ann r)) = true ->
+    utf8v (JObj (w_ann r)) = true ->
+    read_header dec (mkp (p_id p) (header_info (w_ann r)) (p_seq p) (p_qual p)) = RRec r.
+  Proof.
+    intros p r H Hn Hu. unfold read_header in H. destruct (p_def p) as [|c0 d0] eqn:Ed.
+    { injection H as <-. reflexivity. }
+    remember (c0 :: d0) as d. clear Heqd.
+    assert (Hgoal : forall ann, r = mkw (p_id p) ann (p_seq p) (p_qual p) -> wfv (JObj ann) = true -> canon (JObj ann) = true ->
+                    read_header dec (mkp (p_id p) (header_info (w_ann r)) (p_seq p) (p_qual p)) = RRec r).
+    { intros ann -> Hw Hc. cbn [w_ann] in *. apply read_header_formatted; assumption. }
+    destruct (parse_header dec d) as [d' | v rest |] eqn:Ep; [| |discriminate H].
+    - injection H as <-. eapply Hgoal; [reflexivity | reflexivity | reflexivity].
+    - destruct v as [| | | | |m]; try discriminate H; try (destruct rest; discriminate H).
+      assert (Hm : wfv (JObj m) = true /\ canon (JObj m) = true).
+      { unfold parse_header in Ep. destruct (scan_obj d) as [[a b]|]; [|discriminate Ep].
+        destruct (dec (slice a b d)) as [v|] eqn:E; [|discriminate Ep]. injection Ep as -> _.
+        exact (jdec_wf_canon renum renum_tok _ _ E). }
+      destruct Hm as [Hw Hc].
+      destruct rest as [|c1 rest'].
+      + injection H as <-. eapply Hgoal; [reflexivity | exact Hw | exact Hc].
+      + destruct (lookup_key definition_key m) as [[| | |s| |]|]; try discriminate H; injection H as <-.
+        * destruct (put_wf_canon (definition_key, JStr (s ++ 32 :: c1 :: rest')) m Hw Hc eq_refl eq_refl) as [Hw' Hc'].
+          eapply Hgoal; [reflexivity | exact Hw' | exact Hc'].
+        * destruct (put_wf_canon (definition_key, JStr (c1 :: rest')) m Hw Hc eq_refl eq_refl) as [Hw' Hc'].
+          eapply Hgoal; [reflexivity | exact Hw' | exact Hc'].
+  Qed.
+End Reparse.
+
+
+Section ReadBack2.
+  Variable dec : list N -> option jvalue.
+  (** the guessed parser and the JSON parser agree on every formatted header (an empty header included) *)
+  Lemma guessed_agrees : forall id ann seq q,
+    read_guessed dec (mkp id (header_info ann) seq q) = read_header dec (mkp id (header_info ann) seq q).
+  Proof. intros id [|kv ann'] seq q; reflexivity. Qed.
+
+  Lemma read_all_written2 : forall (guessed : bool) (proj : wrec -> option (list N)) l,
+    forallb rec_ok l = true -> Forall (dec_inverts dec) l ->
+    read_all (if guessed then read_guessed dec else read_header dec)
+             (map (fun r => mkp (w_id r) (header_info (w_ann r)) (w_seq r) (proj r)) l)
+    = RL (map (fun r => mkw (w_id r) (w_ann r) (w_seq r) (proj r)) l).
+  Proof.
+    intros guessed proj l. induction l as [|r l IH]; intros Hok Hdec; [reflexivity|].
+    cbn [forallb] in Hok. apply andb_true_iff in Hok. destruct Hok as [Hr Hl].
+    inversion Hdec as [|r' l' Hdr Hdl]; subst.
+    cbn [map read_all].
+    assert (Hh : read_header dec (mkp (w_id r) (header_info (w_ann r)) (w_seq r) (proj r)) = RRec (mkw (w_id r) (w_ann r) (w_seq r) (proj r))).
+    { apply read_header_written; [apply rec_ok_wf; assumption | exact Hdr]. }
+    assert (E : (if guessed then read_guessed dec else read_header dec)
+                  (mkp (w_id r) (header_info (w_ann r)) (w_seq r) (proj r)) = RRec (mkw (w_id r) (w_ann r) (w_seq r) (proj r))).
+    { destruct guessed; [rewrite guessed_agrees|]; exact Hh. }
+    rewrite E. rewrite IH; [reflexivity | assumption | assumption].
+  Qed.
+
+  Theorem fasta_write_read2 : forall guessed shift l, l <> [] -> forallb rec_ok l = true -> Forall (dec_inverts dec) l ->
+    exists text, format_batch false shift l = Ok text /\ read_file dec false guessed shift text = RL (map drop_qual l).
+  Proof.
+    intros guessed shift l Hne Hok Hdec. destruct (fasta_roundtrip shift l Hne Hok) as (text & Hw & Hp).
+    exists text. split; [exact Hw|]. unfold read_file. rewrite Hp.
+    apply (read_all_written2 guessed (fun _ => None) l Hok Hdec).
+  Qed.
+  Theorem fastq_write_read2 : forall guessed shift l, shift_ok shift -> l <> [] -> forallb fq_ok l = true ->
+    Forall (dec_inverts dec) l ->
+    exists text, format_batch true shift l = Ok text /\ read_file dec true guessed shift text = RL l.
+  Proof.
+    intros guessed shift l Hs Hne Hok Hdec. destruct (fastq_roundtrip shift l Hs Hne Hok) as (text & Hw & Hp).
+    exists text. split; [exact Hw|]. unfold read_file. rewrite Hp.
+    assert (Hok' : forallb rec_ok l = true).
+    { rewrite forallb_forall in *. intros r Hr. apply fq_ok_rec_ok. auto. }
+    unfold as_parsed_q. rewrite (read_all_written2 guessed w_qual l Hok' Hdec).
+    f_equal. rewrite <- (map_id l) at 2. apply map_ext. intros [a b c d]. reflexivity.
+  Qed.
+End ReadBack2.
+
+(** ** the decoder is the JSON parser of the model: no hypothesis left *)
+Lemma dec_inverts_jdec0 : forall l, forallb rec_ok l = true -> forallb ann_utf8 l = true -> Forall (dec_inverts jdec0) l.
+Proof.
+  intros l H Hu. apply Forall_forall. intros r Hr. rewrite forallb_forall in H, Hu. unfold dec_inverts.
+  apply jdec0_ser; [apply rec_ok_wf; auto | apply (Hu r Hr)].
+Qed.
+Lemma fq_ok_all_rec_ok : forall l, forallb fq_ok l = true -> forallb rec_ok l = true.
+Proof. intros l H. rewrite forallb_forall in *. intros r Hr. apply fq_ok_rec_ok. auto. Qed.
+
+Theorem header_roundtrip_j : forall o rest, wfv (JObj o) = true -> utf8v (JObj o) = true ->
+  parse_header jdec0 (ser (JObj o) ++ rest) = HObject (JObj o) (trim rest).
+Proof. intros. apply parse_header_roundtrip; [assumption | apply jdec0_ser; assumption]. Qed.
+
+Theorem fasta_write_read_j : forall guessed shift l, l <> [] -> forallb rec_ok l = true -> forallb ann_utf8 l = true ->
+  exists text, format_batch false shift l = Ok text /\ read_file jdec0 false guessed shift text = RL (map drop_qual l).
+Proof. intros. apply fasta_write_read2; [assumption | assumption | apply dec_inverts_jdec0; assumption]. Qed.
+Theorem fastq_write_read_j : forall guessed shift l, shift_ok shift -> l <> [] -> forallb fq_ok l = true -> forallb ann_utf8 l = true ->
+  exists text, format_batch true shift l = Ok text /\ read_file jdec0 true guessed shift text = RL l.
+Proof. intros. apply fastq_write_read2; [assumption | assumption | assumption | apply dec_inverts_jdec0; [apply fq_ok_all_rec_ok|]; assumption]. Qed.
+Theorem fasta_fixed_point_j : forall guessed shift l, l <> [] -> forallb rec_ok l = true -> forallb ann_utf8 l = true ->
+  exists text l', format_batch false shift l = Ok text /\ read_file jdec0 false guessed shift text = RL l'
+                  /\ format_batch false shift l' = Ok text.
+Proof.
+  intros guessed shift l Hne Hok Hu. destruct (fasta_write_read_j guessed shift l Hne Hok Hu) as (text & Hw & Hr).
+  exists text, (map drop_qual l). split; [exact Hw|]. split; [exact Hr|]. rewrite format_batch_drop_qual. exact Hw.
+Qed.
+Theorem fastq_fixed_point_j : forall guessed shift l, shift_ok shift -> l <> [] -> forallb fq_ok l = true -> forallb ann_utf8 l = true ->
+  exists text l', format_batch true shift l = Ok text /\ read_file jdec0 true guessed shift text = RL l'
+                  /\ format_batch true shift l' = Ok text.
+Proof.
+  intros guessed shift l Hs Hne Hok Hu. destruct (fastq_write_read_j guessed shift l Hs Hne Hok Hu) as (text & Hw & Hr).
+  exists text, l. auto.
+Qed.
+
+(** ** the decoder is go-json into a Go map with float64 numbers: records must be canonical (the only member order a
+    Go map can be written in) and their number tokens stable under read-then-write *)
+Definition map_ok (renum : list N -> list N) (r : wrec) : bool := ann_utf8 r && canon_rec r && numfixed renum (JObj (w_ann r)).
+Lemma dec_inverts_jdec : forall renum l, forallb rec_ok l = true -> forallb (map_ok renum) l = true ->
+  Forall (dec_inverts (jdec renum)) l.
+Proof.
+  intros renum l H1 H2. apply Forall_forall. intros r Hr. rewrite forallb_forall in H1, H2. unfold dec_inverts.
+  specialize (H2 r Hr). unfold map_ok in H2. apply andb_true_iff in H2. destruct H2 as [H2 Hn]. apply andb_true_iff in H2. destruct H2 as [Hu Hc].
+  apply jdec_ser; [apply rec_ok_wf; auto | exact Hu | exact Hc | exact Hn].
+Qed.
+Theorem fasta_fixed_point_map : forall renum guessed shift l, l <> [] -> forallb rec_ok l = true -> forallb (map_ok renum) l = true ->
+  exists text, format_batch false shift l = Ok text /\ read_file (jdec renum) false guessed shift text = RL (map drop_qual l)
+               /\ format_batch false shift (map drop_qual l) = Ok text.
+Proof.
+  intros renum guessed shift l Hne Hok Hm.
+  destruct (fasta_write_read2 (jdec renum) guessed shift l Hne Hok (dec_inverts_jdec renum l Hok Hm)) as (text & Hw & Hr).
+  exists text. split; [exact Hw|]. split; [exact Hr|]. rewrite format_batch_drop_qual. exact Hw.
+Qed.
+Theorem fastq_fixed_point_map : forall renum guessed shift l, shift_ok shift -> l <> [] -> forallb fq_ok l = true ->
+  forallb (map_ok renum) l = true ->
+  exists text, format_batch true shift l = Ok text /\ read_file (jdec renum) true guessed shift text = RL l.
+Proof.
+  intros renum guessed shift l Hs Hne Hok Hm.
+  apply fastq_write_read2; [assumption | assumption | assumption |].
+  apply dec_inverts_jdec; [apply fq_ok_all_rec_ok; assumption | assumption].
+Qed.
+
+(** every number of the annotations is an integer |x| <= 2^53 written canonically: the float64 path changes nothing *)
+Fixpoint small_ints (v : jvalue) : bool :=
+  match v with
+  | JNum t => small_int_tok t
+  | JArr l => forallb small_ints l
+  | JObj m => forallb (fun kv => small_ints (snd kv)) m
+  | _ => true
+  end.
+Lemma small_ints_numfixed : forall v, small_ints v = true -> numfixed renum64 v = true.
+Proof.
+  induction v using jvalue_ind'; intros Hs; cbn [numfixed small_ints] in *; try reflexivity.
+  - rewrite small_int_fixed by exact Hs. apply nlist_eqb_refl.
+  - rewrite forallb_forall in *. rewrite Forall_forall in H. auto.
+  - rewrite forallb_forall in *. rewrite Forall_forall in H. auto.
 Qed.
